@@ -1270,7 +1270,9 @@ impl Session {
                 let mut awaiting_since: Option<Instant> = None;
 
                 loop {
-                    let deadline = awaiting_since.map(|sent| sent + heartbeat_state.timeout);
+                    // A timeout too large to be added to an instant means "never give up".
+                    let deadline =
+                        awaiting_since.and_then(|sent| sent.checked_add(heartbeat_state.timeout));
                     let is_tick = tokio::select! {
                         _ = ticker.tick() => true,
                         _ = time::sleep_until(deadline.unwrap_or_else(Instant::now)), if deadline.is_some() => false,
